@@ -270,11 +270,94 @@ def rule_early(ctx):
             ctx.check(R, "self._readState = read_state_copy" in rest and rest[-1] == "continue", fi.qname,
                       "read state restored before the retry", "a skipped record must not advance the read "
                       "state (sequence number)", fi.loc(t))
+    _snapshot_covers_restore(ctx, R, fi)
     st = ctx.index.func(RECLAYER + "early_data_ok.setter") if ctx.index.has_func(RECLAYER + "early_data_ok.setter") else None
     if st is not None:
         src = [norm(s) for s in st.node.body if not isinstance(s, ast.Expr)]
         ctx.check(R, "self._early_data_processed = 0" in src, st.qname, "setter resets the byte counter",
                   "enabling early-data tolerance must reset the skipped-byte counter", st.loc())
+
+
+def _guards(fn, stmt):
+    """the `if` conditions (with polarity) that enclose one statement of a function"""
+    def find(stmts, acc):
+        for s in stmts:
+            if s is stmt:
+                return acc
+            if isinstance(s, ast.If):
+                r = find(s.body, acc + [(s.test, True)])
+                if r is None:
+                    r = find(s.orelse, acc + [(s.test, False)])
+                if r is not None:
+                    return r
+            else:
+                for field in ("body", "orelse", "finalbody"):
+                    b = getattr(s, field, None)
+                    if isinstance(b, list) and b and isinstance(b[0], ast.stmt):
+                        r = find(b, acc)
+                        if r is not None:
+                            return r
+                for h in getattr(s, "handlers", []) or []:
+                    r = find(h.body, acc)
+                    if r is not None:
+                        return r
+        return None
+    return find(fn.body, [])
+
+
+def _atoms(e, out):
+    if isinstance(e, ast.BoolOp):
+        for v in e.values:
+            _atoms(v, out)
+    elif isinstance(e, ast.UnaryOp) and isinstance(e.op, ast.Not):
+        _atoms(e.operand, out)
+    else:
+        out.add(norm(e))
+
+
+def _snapshot_covers_restore(ctx, R, fi):
+    """the read state put back when an undecryptable record is skipped is a snapshot that WAS taken:
+    whenever the restoring branch runs, the branch that took the copy ran too (the conditions are
+    compared over all truth assignments of their atoms; nothing is run)."""
+    import itertools
+    from ..condeval import ev, Unknown
+    fn = fi.node
+    restores = [n for n in own_nodes(fn) if isinstance(n, ast.Assign) and len(n.targets) == 1
+                and attr_chain(n.targets[0]) == "self._readState" and isinstance(n.value, ast.Name)]
+    if not restores:
+        raise AnalysisError("%s: restore of the read state in recvRecord not found" % R)
+    for r in restores:
+        name = r.value.id
+        snaps = [n for n in own_nodes(fn) if isinstance(n, ast.Assign) and len(n.targets) == 1
+                 and isinstance(n.targets[0], ast.Name) and n.targets[0].id == name
+                 and not (isinstance(n.value, ast.Constant) and n.value.value is None)]
+        if not snaps:
+            ctx.fail(R, fi.qname, r, "the read state is restored from `%s`, which is never set to a snapshot" % name,
+                     fi.loc(r))
+            continue
+        tg = _guards(fn, r) or []
+        sgs = [(_guards(fn, s_) or []) for s_ in snaps]
+        atoms = set()
+        for t_, _ in tg + [x for sg in sgs for x in sg]:
+            _atoms(t_, atoms)
+        atoms = sorted(atoms)
+        bad = None
+        if len(atoms) <= 10:
+            for combo in itertools.product([True, False], repeat=len(atoms)):
+                env = dict(zip(atoms, combo))
+
+                def holds(gs):
+                    try:
+                        return all(bool(ev(t_, dict(env))) == pol for t_, pol in gs)
+                    except (Unknown, TypeError):
+                        return None
+                if holds(tg) and not any(holds(sg) for sg in sgs):
+                    bad = ", ".join("%s is %s" % (a, v) for a, v in env.items())
+                    break
+        ctx.check(R, bad is None, fi.qname, r,
+                  "an undecryptable record can be skipped with no snapshot of the read state taken: when %s the "
+                  "restore `%s` runs but `%s` was left unset (None becomes the read state)" % (bad, norm(r), name),
+                  fi.loc(r), what="restored read state was snapshotted on every skipping path")
 
 
 def rule_hdr13(ctx):
